@@ -29,3 +29,9 @@ Proof. vm_compute. reflexivity. Qed.
 
 Lemma ga_new_auth_verifier_shape : ga_newverifier_ok gen_new_auth_verifier = true.
 Proof. vm_compute. reflexivity. Qed.
+
+Lemma ga_legacy_auth_shape : ga_legacy_auth_ok gen_legacy_server_auth = true.
+Proof. vm_compute. reflexivity. Qed.
+
+Lemma ga_login_hook_shape : ga_loginhook_ok gen_login_hook = true /\ ga_manager_login_adopt_ok gen_manager_login_adopt = true.
+Proof. vm_compute. split; reflexivity. Qed.
